@@ -167,8 +167,7 @@ class DIMSEMessage(object):
 
     @data_set.setter
     def data_set(self, value):
-        if value:
-            self.command_set.CommandDataSetType = 0x0001
+        self.command_set.CommandDataSetType = 0x0001 if value else NO_DATASET
         self._data_set = value
 
     def encode(self, pc_id, max_pdu_length):
